@@ -5,10 +5,13 @@ package policy
 import (
 	"strings"
 
+	"github.com/inbucket/inbucket/v3/pkg/config"
+
 	"github.com/inbucket/inbucket/v3/pkg/stringutil"
 )
 
 var _ = strings.ToLower
+var _ = config.LocalNaming
 var _ = stringutil.SliceContains
 
 func specAssert(b bool) {
@@ -86,9 +89,80 @@ func specAssert(b bool) {
 //@   pure
 //@   ensures ret ==> 1 <= len(domain) && len(domain) <= 255
 //@   ensures ret && !spec_bracketed(domain) ==> spec_allDom(domain, len(domain))
-//@   ensures ret ==> forall k int :: { domain[k] } 0 <= k && k < len(domain) ==> domain[k] != '*' && domain[k] != '?'
+//@   ensures ret ==> forall k int :: { domain[k] } 0 <= k && k < len(domain) ==> domain[k] != '*' && domain[k] != '?' && domain[k] < 128
 //@   loop 1: invariant 0 <= ridx && ridx <= len(domain) && len(in_domain) >= 1 && !spec_bracketed(in_domain)
 //@   loop 1: invariant domain == in_domain || domain == in_domain + "."
 //@   loop 1: invariant spec_allDom(domain, ridx)
 //@   loop 1: decreases len(domain) - ridx
 //@   serves C04 C05
+
+// parseEmailAddress (first tier: memory safety, termination, no side effects).
+//@ func parseEmailAddress
+//@   loop 1: invariant 0 <= i && i <= len(address) && len(address) >= 1 && buf != nil && vcFresh(buf)
+//@   loop 1: decreases len(address) - i
+//@   serves C04 C03
+
+//@ func ParseEmailAddress
+//@   ensures err == nil ==> ValidateDomainPart(domain)
+//@   serves C04 C03
+
+//@ func (*Addressing).ParseOrigin
+//@   requires a.Config != nil
+//@   ensures ret1 == nil ==> Spec_originOf(ret0, a) && vcFresh(ret0) && Spec_originOK(ret0)
+//@   ensures ret1 != nil ==> ret0 == nil
+//@   serves C03 C05
+
+// ---------------------------------------------------------------------------------------------
+// C04 top level: the mailbox name derived from an address.
+
+//@ pred spec_noUpper(m string) bool = forall k int :: { m[k] } 0 <= k && k < len(m) ==> !('A' <= m[k] && m[k] <= 'Z')
+
+//@ func extractDomainMailbox
+//@   ensures ret1 == nil ==> len(ret0) > 0
+//@   ensures[canonicalCase] ret1 == nil ==> spec_noUpper(ret0)
+//@   serves C04
+
+//@ func (*Addressing).ExtractMailbox
+//@   requires a.Config != nil
+//@   ensures[nonEmpty] ret1 == nil ==> len(ret0) > 0
+//@   ensures[canonicalCase] ret1 == nil ==> spec_noUpper(ret0)
+//@   ensures[noPlusLocal] ret1 == nil && a.Config.MailboxNaming == config.LocalNaming ==> spec_noPlus(ret0)
+//@   serves C04
+
+//@ func (*Addressing).NewRecipient
+//@   requires a.Config != nil
+//@   ensures ret1 == nil ==> Spec_recipientOf(ret0, a) && vcFresh(ret0) && ret0.Address.Address == address
+//@   ensures ret1 != nil ==> ret0 == nil
+//@   serves C01 C03
+
+//@ pred spec_originMatch(list []string, d string) bool = exists i int :: 0 <= i && i < len(list) && stringutil.Spec_wmatch(list[i], d)
+
+// A sender is refused exactly when its (lower-cased) domain matches a reject-origin pattern.
+//@ func (*Addressing).ShouldAcceptOriginDomain
+//@   requires a.Config != nil && stringutil.Spec_noStar(strings.ToLower(domain))
+//@   ensures ret == !spec_originMatch(a.Config.SMTP.RejectOriginDomains, strings.ToLower(domain))
+//@   loop 1: invariant 0 <= ridx && ridx <= len(a.Config.SMTP.RejectOriginDomains)
+//@   loop 1: invariant forall k int :: 0 <= k && k < ridx ==> !stringutil.Spec_wmatch(a.Config.SMTP.RejectOriginDomains[k], domain)
+//@   loop 1: decreases len(a.Config.SMTP.RejectOriginDomains) - ridx
+//@   serves C05
+
+//@ pred Spec_originOK(o *Origin) bool = o != nil && o.addrPolicy != nil && o.addrPolicy.Config != nil && stringutil.Spec_noStar(strings.ToLower(o.Domain))
+//@ pred Spec_originRejected(o *Origin) bool = spec_originMatch(o.addrPolicy.Config.SMTP.RejectOriginDomains, strings.ToLower(o.Domain))
+
+//@ func (*Origin).ShouldAccept
+//@   requires Spec_originOK(o)
+//@   ensures ret == !Spec_originRejected(o)
+//@   serves C05
+
+// ---------------------------------------------------------------------------------------------
+// Exported specification accessors for other packages' contracts (unexported fields).
+
+// Spec_recipientOf: r was built by policy a.
+func Spec_recipientOf(r *Recipient, a *Addressing) bool { return r != nil && r.addrPolicy == a }
+
+// Spec_originOf: o was built by policy a.
+func Spec_originOf(o *Origin, a *Addressing) bool { return o != nil && o.addrPolicy == a }
+
+// Spec_shouldAccept / Spec_shouldStore: the documented accept / store rule for a recipient.
+//@ pred Spec_shouldAccept(r *Recipient) bool = spec_shouldAccept(r)
+//@ pred Spec_shouldStore(r *Recipient) bool = spec_shouldStore(r)
